@@ -83,6 +83,15 @@ pub struct Sched {
     pub deadlock: bool,
     pub done: bool,
     pub finished: usize,
+    /// Fresh-thread runs: an exiting caller thread hands the token to the driver, which
+    /// joins the OS thread (so its thread-local destructors have run) before anybody else
+    /// proceeds (F10, deterministic thread exit).
+    pub exit_via_driver: bool,
+    pub pending_exit: Option<usize>,
+    /// `late[j] = Some(i)`: thread j does not start before thread i has exited.
+    pub late: Vec<Option<usize>>,
+    pub thread_exits_joined: u64,
+    pub late_starts: u64,
 }
 
 pub fn lock(m: &Mutex<Sched>) -> MutexGuard<'_, Sched> {
@@ -157,6 +166,11 @@ impl Sched {
             deadlock: false,
             done: false,
             finished: 0,
+            exit_via_driver: false,
+            pending_exit: None,
+            late: spec.late.clone().unwrap_or_default(),
+            thread_exits_joined: 0,
+            late_starts: 0,
         }
     }
 
@@ -184,6 +198,10 @@ impl Sched {
     fn candidates(&self) -> Vec<usize> {
         let mut c: Vec<usize> = (0..self.n)
             .filter(|&t| self.tstate[t] == TState::Runnable && !self.held[t])
+            .filter(|&t| match self.late.get(t).copied().flatten() {
+                Some(i) => i >= self.n || i == t || self.tstate[i] == TState::Finished,
+                None => true,
+            })
             .collect();
         if let Some(s) = self.stalled {
             if c.len() > 1 {
@@ -435,20 +453,13 @@ impl SimThread {
         if g.stalled == Some(self.idx) {
             g.stalled = None;
         }
-        match g.decide(Some(self.idx), Point::Exit) {
-            Some(next) => {
-                g.note_switch(Some(self.idx), next, Point::Exit);
-                g.current = Some(next);
-                self.shared.cvs[next].notify_one();
-            }
-            None => {
-                g.current = None;
-                if g.finished == g.n {
-                    g.done = true;
-                }
-                self.shared.main_cv.notify_all();
-            }
+        if g.exit_via_driver {
+            // the driver joins this OS thread, then passes the token on
+            g.pending_exit = Some(self.idx);
+            self.shared.main_cv.notify_all();
+            return;
         }
+        after_exit(&self.shared, &mut g, self.idx);
     }
 
     pub fn with<R>(&self, f: impl FnOnce(&mut Sched) -> R) -> R {
@@ -458,6 +469,28 @@ impl SimThread {
 
     pub fn set_io(&self, on: bool) {
         self.shared.tcells[self.idx].in_io.store(on, Ordering::Relaxed);
+    }
+}
+
+/// Token hand-over after thread `idx` has finished (called by the thread itself, or by the
+/// driver once it has joined the OS thread).
+pub fn after_exit(shared: &Arc<Shared>, g: &mut Sched, idx: usize) {
+    match g.decide(Some(idx), Point::Exit) {
+        Some(next) => {
+            if g.late.get(next).copied().flatten() == Some(idx) {
+                g.late_starts += 1;
+            }
+            g.note_switch(Some(idx), next, Point::Exit);
+            g.current = Some(next);
+            shared.cvs[next].notify_one();
+        }
+        None => {
+            g.current = None;
+            if g.finished == g.n {
+                g.done = true;
+            }
+            shared.main_cv.notify_all();
+        }
     }
 }
 
@@ -481,7 +514,11 @@ fn task_state(tid: i32) -> Option<char> {
 
 /// Driver side: wait until the run is over. Watches the token holder for blocking the
 /// simulator does not own (DESIGN §3.4). Returns false if the wall-clock guard fired.
-pub fn drive(shared: &Arc<Shared>, wall_limit: std::time::Duration) -> bool {
+pub fn drive(
+    shared: &Arc<Shared>,
+    wall_limit: std::time::Duration,
+    mut join_thread: impl FnMut(usize),
+) -> bool {
     let t0 = std::time::Instant::now();
     let mut g = lock(&shared.m);
     let mut last_clock = CLOCK.load(Ordering::Relaxed);
@@ -491,6 +528,17 @@ pub fn drive(shared: &Arc<Shared>, wall_limit: std::time::Duration) -> bool {
         if g.done {
             return true;
         }
+        if let Some(i) = g.pending_exit.take() {
+            // a caller thread of a fresh-thread run is exiting: wait until the OS thread is
+            // gone (thread-local destructors included), then pass the token on
+            drop(g);
+            join_thread(i);
+            g = lock(&shared.m);
+            g.thread_exits_joined += 1;
+            after_exit(shared, &mut g, i);
+            last_clock = CLOCK.load(Ordering::Relaxed);
+            continue;
+        }
         let (g2, to) = shared
             .main_cv
             .wait_timeout(g, std::time::Duration::from_millis(5))
@@ -498,6 +546,9 @@ pub fn drive(shared: &Arc<Shared>, wall_limit: std::time::Duration) -> bool {
         g = g2;
         if g.done {
             return true;
+        }
+        if g.pending_exit.is_some() {
+            continue;
         }
         if !to.timed_out() {
             continue;
